@@ -907,8 +907,10 @@ namespace fixedmath
       fixed_internal res_tan {};
       if( x <= fixpidiv4.v )
         res_tan = tan_<prec_+prec_inc>(x<<prec_inc)>>prec_inc;
-      else
+      else if( x <= fixpidiv2.v + fixpidiv4.v )
         res_tan = div_<prec_>( one_, tan_<prec_+prec_inc>( (fixpidiv2.v<<prec_inc) - (x<<prec_inc) )>>prec_inc );
+      else //tan(x) = -tan(phi-x), phi-x is in range 0..phi/4 where the series converges
+        res_tan = -(tan_<prec_+prec_inc>((phi.v - x)<<prec_inc)>>prec_inc);
       if( sign_ )
         res_tan = -res_tan;
       return as_fixed(res_tan);
